@@ -4,6 +4,7 @@ import (
 	"fmt"
 	"os"
 	"sort"
+	"strings"
 
 	"github.com/ethereum/go-ethereum/common"
 	"github.com/ethereum/go-ethereum/core/rawdb"
@@ -117,7 +118,7 @@ func (rn *runner) recoverOne(st *state) *simcore.Violation {
 		if err == nil {
 			return simcore.Violf("recover-unrecoverable-accepted", "Recover(state #%d root %x) returned nil although Recoverable reported false", st.idx, st.root[:4])
 		}
-		if n := rn.w.kv.LogLen(); n != kvLen {
+		if n := rn.w.kv.LogLen(); n != kvLen && !rn.p.K.Indexing { // (the background indexer writes on its own)
 			return simcore.Violf("refused-recover-mutates", "refused Recover(state #%d) wrote %d key-value units", st.idx, n-kvLen)
 		}
 		if rn.w.rec != nil && rn.w.rec.Len() != evLen {
@@ -127,6 +128,12 @@ func (rn *runner) recoverOne(st *state) *simcore.Violation {
 		return rn.checkTree("after refused Recover")
 	}
 	before := rn.w.db.VerifDisk()
+	if rn.p.K.Indexing {
+		if sIdx, sInit, tIdx, tInit := rn.w.db.VerifIndexerState(); (sIdx && !sInit) || (tIdx && !tInit) {
+			rn.recoverWhileIndexing = true
+			rn.probe("recover-during-initial-indexing")
+		}
+	}
 	rn.mu.Lock()
 	pre := liveSet(rn.m)
 	rn.m.recoverTo(k)
@@ -143,6 +150,10 @@ func (rn *runner) recoverOne(st *state) *simcore.Violation {
 	rn.mu.Unlock()
 	if v != nil {
 		return v
+	}
+	if err != nil && rn.p.K.Indexing && strings.Contains(err.Error(), "history unindexing is out of order") {
+		return rn.keyed("recover-failed", "indexer-shorten-during-initial-indexing", true,
+			"Recover(state #%d, id %d; disk layer id %d) failed: %v. The initial indexing run was still in progress: indexIniter.run lowers its target first and then tests checkDone() against the lowered target, so 'everything below the reverted history is indexed' is taken for 'the reverted history is indexed too' and an unindex of a history that was never indexed is attempted; the disk layer has already been marked stale at that point", st.idx, k, diskID, err)
 	}
 	if err != nil {
 		if tok0 && k < ttail0 {
